@@ -54,7 +54,9 @@ def cases(tier, seed, ctx=None):
         for b in nums + [b""]:
             for size in (-1, 0, 6, 13, 2**31, 2**40):
                 yield ("range", [1, a + b"-" + b, size], "str-numerals")
-    deco = [b" 1-2 ", b"\t3-\n", b"-4\r", b"1 -2", b"1- 2", b"1--2", b"-1-2", b"+1-2", b"1-2-", b"0x1-2", b"1-2,3-4", b"\x0b5-9\x0c"]
+    deco = [b" 1-2 ", b"\t3-\n", b"-4\r", b"1 -2", b"1- 2", b"1--2", b"-1-2", b"+1-2", b"1-2-", b"0x1-2", b"1-2,3-4", b"\x0b5-9\x0c",
+            # bytes read as Latin-1: NBSP and NEL are white space for QString::trimmed, NUL ends the string, other high bytes are not space
+            b"\xa01-2", b"1-2\xa0", b"\x851-2\x85", b"1\xa0-2", b"\xa0-5", b"1-\x00", b"-1\x00", b"1-2\x00junk", b"\x001-2", b"1-2\xff", b"\xb21-2", b"1-2\xc2\xa0"]
     for d in deco:
         for size in (-1, 10):
             yield ("range", [1, d, size], "str-deco")
